@@ -8,8 +8,10 @@ import random
 from common import SPEC, ToolError, log, model_check, tlc
 
 # ---------------------------------------------------------------------------------- handlers
-H_FLAGS = dict(KeyByCtx=False, SubBeforeAnnounce=False, PatientClient=True, OwnFilter=True, RegSkipLe=True, AtomicCall=True,
-               StampAll=True, ForceCtx=True, UnregOnce=True, CompactUnreg=True, CompactClientUnreg=False)
+# as coded (since the fixes 0393425 b31b5e5 8f6ff67 the three former deviations KeyByCtx / CompactClientUnreg /
+# SubBeforeAnnounce are repaired in the code; PatientClient = FALSE is the remaining known finding C16 #9b)
+H_FLAGS = dict(KeyByCtx=True, SubBeforeAnnounce=True, PatientClient=True, OwnFilter=True, RegSkipLe=True, AtomicCall=True,
+               StampAll=True, ForceCtx=True, UnregOnce=True, CompactUnreg=True, CompactClientUnreg=True)
 H_C14 = ("C14_InvokedIsPrefixOfEligible C14_EligibleAllInvokedAtQuiet C14_OneAtATime C14_NoForeignCtx C14_NeverOwnOutput "
          "C14_NoOldRegistrationTraffic")
 H_C15 = "C15_OutputsStamped C15_OutputsInHandlerCtx C15_OrderWithinCall C15_AllOrNothingPerCall"
@@ -39,7 +41,9 @@ H_MUTANTS = [
     ("call", "StampAll", False, "C15_OutputsStamped"),
     ("call", "ForceCtx", False, "C15_OutputsInHandlerCtx"),
     ("life", "UnregOnce", False, "C16_StopAnnouncedOnce"),
-    ("restart1", "CompactUnreg", False, "C17_RestoresActive"),
+    # (with the client's .unregister honoured at start-up, ignoring the handler's own .unregistered only shows
+    #  for stops that no client frame explains, so this one is run with that switch off as well)
+    ("restart1", "CompactUnreg", False, "C17_RestoresActive", dict(CompactClientUnreg=False)),
     # named deviations: as coded the invariant fails, that is the known finding
     ("fixed", "KeyByCtx", False, "C17_RestoresActive"),
     ("fixed", "SubBeforeAnnounce", False, "C16_RegisteredImpliesSubscribed"),
@@ -66,7 +70,7 @@ def h_cfg(name, gen=False, flags=None, invariants=None):
 
 
 # ---------------------------------------------------------------------------------- commands
-C_FLAGS = dict(KeyByCtx=False, OneTerminal=True, SkipOldCalls=True, StampCall=True, CallerCtx=True, LatestWins=True)
+C_FLAGS = dict(KeyByCtx=True, OneTerminal=True, SkipOldCalls=True, StampCall=True, CallerCtx=True, LatestWins=True)
 C_KEYFREE = ("C19_AtMostOneTerminal C19_TerminalIsLast C19_RecvInOrder C19_Stamped "
              "C19_CallerCtx C19_ResultMatchesScript C19_NoReplay C19_InvalidDefinitionReported")
 C_COMMON = C_KEYFREE + " C19_ExactlyOneTerminalAtQuiet C19_UndefinedSilent C17_CommandsRestored"
@@ -84,7 +88,7 @@ C_MUTANTS = [
     ("one", "OneTerminal", False, "C19_AtMostOneTerminal"),
     ("one", "SkipOldCalls", False, "C19_NoReplay"),
     ("one", "StampCall", False, "C19_Stamped"),
-    ("ctx", "CallerCtx", False, "C19_CallerCtx"),
+    ("ctx", "CallerCtx", False, "C19_CallerCtx", dict(KeyByCtx=False))  # (definition and caller contexts differ only with a name-keyed table),
     ("one", "LatestWins", False, "C19_LatestValidDefinition"),
     ("fixed", "KeyByCtx", False, "C19_LatestValidDefinition"),      # named deviation of the code
 ]
@@ -108,7 +112,7 @@ def c_cfg(name, gen=False, flags=None, invariants=None):
 
 
 # ---------------------------------------------------------------------------------- generators
-G_FLAGS = dict(KeyByCtx=False, CompactByRef=False, Panics=True, StopLast=True, StampSource=True, OneSpawnError=True, FeedOnce=True)
+G_FLAGS = dict(KeyByCtx=True, CompactByRef=True, Panics=True, StopLast=True, StampSource=True, OneSpawnError=True, FeedOnce=True)
 G_COMMON = ("C18_Lifecycle C18_RecvInOrderAndComplete C18_SourceAndCtx C18_AtMostOneSpawnError C18_RefusedNeverRuns "
             "C18_EverySpawnAnswered C18_SendsOnceInOrder")
 G_CONFIGS = {
@@ -182,9 +186,12 @@ def check_spec_mutants(d):
     """each mechanism switched off / each named deviation must make TLC report the invariant"""
     res = []
     for fam, (mod, pat, fn, cfgs, _, mutants) in FAMILIES.items():
-        for cname, flag, val, inv in mutants:
+        for mt in mutants:
+            cname, flag, val, inv = mt[:4]
+            fl = {flag: val}
+            fl.update(mt[4] if len(mt) > 4 else {})      # further switches the mutant needs to show
             cfgp = os.path.join(d, f"mut_{fam}_{cname}_{flag}.cfg")
-            open(cfgp, "w").write(fn(cname, flags={flag: val}, invariants=inv))
+            open(cfgp, "w").write(fn(cname, flags=fl, invariants=inv))
             out, _, _, _ = tlc(mod, cfgp, workers=8, timeout=900)
             caught = f"Invariant {inv} is violated" in out
             res.append({"module": mod, "cfg": cname, "flag": flag, "value": val, "invariant": inv, "caught": caught})
